@@ -389,8 +389,15 @@ def apply_fault(out, eligible, fault, rnd, d):
         if not c:
             return None
         i = rnd.choice(c)
-        k = out[i].rfind('}')
-        out[i] = out[i][:k] + out[i][k + 1:]
+        r_ = rnd.random()
+        if r_ < 0.5:
+            k = out[i].rfind('}')                     # a closing brace is missing
+            out[i] = out[i][:k] + out[i][k + 1:]
+        elif r_ < 0.75 and out[i].count('{') == 1:
+            k = out[i].find('{')                      # the one opening brace of the line is missing: '... 1 0.3 "group": "x"}'
+            out[i] = out[i][:k] + out[i][k + 1:]
+        else:
+            out[i] = out[i] + ' }' if ' ;' not in out[i] else out[i].replace(' ;', ' } ;', 1)      # one closing brace too many
         return fault
     if fault == 'prefix-order-contradiction':
         i = pick('has-prefix')
